@@ -10,125 +10,125 @@ open MongoModel.Vocab
 
 /-! distinct classifications -/
 def cls_0 : NameClass :=
-  { op := true, comment := false, expr := false, not_ := false, all := false, exists_ := false, neNin := false, each := false, needsDecimal := false, operatorMap := false, logical := false, logicalConst := false, topNI := false, fieldNI := false, updater := false, updateInline := false, pushMod := false, stageImpl := false, exprHit := none, exprNI := false, grouping := false, groupInline := false, typeImpl := false, typeNone := false }
+  { op := true, comment := false, expr := false, not_ := false, all := false, exists_ := false, neNin := false, each := false, needsDecimal := false, operatorMap := false, logical := false, logicalConst := false, topNI := false, fieldNI := false, updater := false, updateInline := false, updateChecked := false, pushMod := false, stageImpl := false, exprHit := none, exprNI := false, grouping := false, groupInline := false, typeImpl := false, typeNone := false }
 def cls_1 : NameClass :=
-  { op := false, comment := false, expr := false, not_ := false, all := false, exists_ := false, neNin := false, each := false, needsDecimal := false, operatorMap := false, logical := false, logicalConst := false, topNI := false, fieldNI := false, updater := false, updateInline := false, pushMod := false, stageImpl := false, exprHit := none, exprNI := false, grouping := false, groupInline := false, typeImpl := false, typeNone := false }
+  { op := false, comment := false, expr := false, not_ := false, all := false, exists_ := false, neNin := false, each := false, needsDecimal := false, operatorMap := false, logical := false, logicalConst := false, topNI := false, fieldNI := false, updater := false, updateInline := false, updateChecked := false, pushMod := false, stageImpl := false, exprHit := none, exprNI := false, grouping := false, groupInline := false, typeImpl := false, typeNone := false }
 def cls_2 : NameClass :=
-  { op := true, comment := false, expr := false, not_ := false, all := false, exists_ := false, neNin := true, each := false, needsDecimal := false, operatorMap := true, logical := false, logicalConst := false, topNI := false, fieldNI := false, updater := false, updateInline := false, pushMod := false, stageImpl := false, exprHit := some true, exprNI := false, grouping := false, groupInline := false, typeImpl := false, typeNone := false }
+  { op := true, comment := false, expr := false, not_ := false, all := false, exists_ := false, neNin := true, each := false, needsDecimal := false, operatorMap := true, logical := false, logicalConst := false, topNI := false, fieldNI := false, updater := false, updateInline := false, updateChecked := false, pushMod := false, stageImpl := false, exprHit := some true, exprNI := false, grouping := false, groupInline := false, typeImpl := false, typeNone := false }
 def cls_3 : NameClass :=
-  { op := true, comment := false, expr := false, not_ := false, all := false, exists_ := false, neNin := false, each := false, needsDecimal := false, operatorMap := true, logical := false, logicalConst := false, topNI := false, fieldNI := false, updater := false, updateInline := false, pushMod := false, stageImpl := false, exprHit := some true, exprNI := false, grouping := false, groupInline := false, typeImpl := false, typeNone := false }
+  { op := true, comment := false, expr := false, not_ := false, all := false, exists_ := false, neNin := false, each := false, needsDecimal := false, operatorMap := true, logical := false, logicalConst := false, topNI := false, fieldNI := false, updater := false, updateInline := false, updateChecked := false, pushMod := false, stageImpl := false, exprHit := some true, exprNI := false, grouping := false, groupInline := false, typeImpl := false, typeNone := false }
 def cls_4 : NameClass :=
-  { op := true, comment := false, expr := false, not_ := false, all := false, exists_ := false, neNin := false, each := false, needsDecimal := false, operatorMap := false, logical := false, logicalConst := false, topNI := false, fieldNI := false, updater := false, updateInline := false, pushMod := false, stageImpl := false, exprHit := some true, exprNI := false, grouping := false, groupInline := false, typeImpl := false, typeNone := false }
+  { op := true, comment := false, expr := false, not_ := false, all := false, exists_ := false, neNin := false, each := false, needsDecimal := false, operatorMap := false, logical := false, logicalConst := false, topNI := false, fieldNI := false, updater := false, updateInline := false, updateChecked := false, pushMod := false, stageImpl := false, exprHit := some true, exprNI := false, grouping := false, groupInline := false, typeImpl := false, typeNone := false }
 def cls_5 : NameClass :=
-  { op := true, comment := false, expr := false, not_ := false, all := false, exists_ := false, neNin := false, each := false, needsDecimal := false, operatorMap := false, logical := true, logicalConst := false, topNI := false, fieldNI := false, updater := false, updateInline := false, pushMod := false, stageImpl := false, exprHit := some true, exprNI := false, grouping := false, groupInline := false, typeImpl := false, typeNone := false }
+  { op := true, comment := false, expr := false, not_ := false, all := false, exists_ := false, neNin := false, each := false, needsDecimal := false, operatorMap := false, logical := true, logicalConst := false, topNI := false, fieldNI := false, updater := false, updateInline := false, updateChecked := false, pushMod := false, stageImpl := false, exprHit := some true, exprNI := false, grouping := false, groupInline := false, typeImpl := false, typeNone := false }
 def cls_6 : NameClass :=
-  { op := false, comment := false, expr := false, not_ := false, all := false, exists_ := false, neNin := false, each := false, needsDecimal := false, operatorMap := false, logical := false, logicalConst := false, topNI := false, fieldNI := false, updater := false, updateInline := false, pushMod := false, stageImpl := false, exprHit := none, exprNI := false, grouping := false, groupInline := false, typeImpl := true, typeNone := false }
+  { op := false, comment := false, expr := false, not_ := false, all := false, exists_ := false, neNin := false, each := false, needsDecimal := false, operatorMap := false, logical := false, logicalConst := false, topNI := false, fieldNI := false, updater := false, updateInline := false, updateChecked := false, pushMod := false, stageImpl := false, exprHit := none, exprNI := false, grouping := false, groupInline := false, typeImpl := true, typeNone := false }
 def cls_7 : NameClass :=
-  { op := true, comment := false, expr := false, not_ := false, all := false, exists_ := false, neNin := false, each := false, needsDecimal := false, operatorMap := false, logical := false, logicalConst := false, topNI := false, fieldNI := false, updater := true, updateInline := false, pushMod := false, stageImpl := false, exprHit := none, exprNI := false, grouping := false, groupInline := false, typeImpl := false, typeNone := false }
+  { op := true, comment := false, expr := false, not_ := false, all := false, exists_ := false, neNin := false, each := false, needsDecimal := false, operatorMap := false, logical := false, logicalConst := false, topNI := false, fieldNI := false, updater := true, updateInline := false, updateChecked := true, pushMod := false, stageImpl := false, exprHit := none, exprNI := false, grouping := false, groupInline := false, typeImpl := false, typeNone := false }
 def cls_8 : NameClass :=
-  { op := true, comment := false, expr := false, not_ := false, all := false, exists_ := false, neNin := false, each := false, needsDecimal := false, operatorMap := false, logical := false, logicalConst := false, topNI := false, fieldNI := false, updater := false, updateInline := false, pushMod := false, stageImpl := false, exprHit := some true, exprNI := false, grouping := true, groupInline := false, typeImpl := false, typeNone := false }
+  { op := true, comment := false, expr := false, not_ := false, all := false, exists_ := false, neNin := false, each := false, needsDecimal := false, operatorMap := false, logical := false, logicalConst := false, topNI := false, fieldNI := false, updater := false, updateInline := false, updateChecked := false, pushMod := false, stageImpl := false, exprHit := some true, exprNI := false, grouping := true, groupInline := false, typeImpl := false, typeNone := false }
 def cls_9 : NameClass :=
-  { op := true, comment := false, expr := false, not_ := false, all := true, exists_ := false, neNin := false, each := false, needsDecimal := false, operatorMap := true, logical := false, logicalConst := false, topNI := false, fieldNI := false, updater := false, updateInline := false, pushMod := false, stageImpl := false, exprHit := none, exprNI := false, grouping := false, groupInline := false, typeImpl := false, typeNone := false }
+  { op := true, comment := false, expr := false, not_ := false, all := true, exists_ := false, neNin := false, each := false, needsDecimal := false, operatorMap := true, logical := false, logicalConst := false, topNI := false, fieldNI := false, updater := false, updateInline := false, updateChecked := false, pushMod := false, stageImpl := false, exprHit := none, exprNI := false, grouping := false, groupInline := false, typeImpl := false, typeNone := false }
 def cls_10 : NameClass :=
-  { op := false, comment := false, expr := false, not_ := false, all := false, exists_ := false, neNin := false, each := false, needsDecimal := false, operatorMap := false, logical := false, logicalConst := false, topNI := false, fieldNI := false, updater := false, updateInline := false, pushMod := false, stageImpl := false, exprHit := none, exprNI := false, grouping := false, groupInline := false, typeImpl := false, typeNone := true }
+  { op := false, comment := false, expr := false, not_ := false, all := false, exists_ := false, neNin := false, each := false, needsDecimal := false, operatorMap := false, logical := false, logicalConst := false, topNI := false, fieldNI := false, updater := false, updateInline := false, updateChecked := false, pushMod := false, stageImpl := false, exprHit := none, exprNI := false, grouping := false, groupInline := false, typeImpl := false, typeNone := true }
 def cls_11 : NameClass :=
-  { op := true, comment := false, expr := false, not_ := false, all := false, exists_ := false, neNin := false, each := false, needsDecimal := false, operatorMap := false, logical := false, logicalConst := false, topNI := false, fieldNI := false, updater := true, updateInline := false, pushMod := false, stageImpl := false, exprHit := some true, exprNI := false, grouping := true, groupInline := false, typeImpl := false, typeNone := false }
+  { op := true, comment := false, expr := false, not_ := false, all := false, exists_ := false, neNin := false, each := false, needsDecimal := false, operatorMap := false, logical := false, logicalConst := false, topNI := false, fieldNI := false, updater := true, updateInline := false, updateChecked := true, pushMod := false, stageImpl := false, exprHit := some true, exprNI := false, grouping := true, groupInline := false, typeImpl := false, typeNone := false }
 def cls_12 : NameClass :=
-  { op := true, comment := false, expr := false, not_ := false, all := false, exists_ := false, neNin := true, each := false, needsDecimal := false, operatorMap := true, logical := false, logicalConst := false, topNI := false, fieldNI := false, updater := false, updateInline := false, pushMod := false, stageImpl := false, exprHit := none, exprNI := false, grouping := false, groupInline := false, typeImpl := false, typeNone := false }
+  { op := true, comment := false, expr := false, not_ := false, all := false, exists_ := false, neNin := true, each := false, needsDecimal := false, operatorMap := true, logical := false, logicalConst := false, topNI := false, fieldNI := false, updater := false, updateInline := false, updateChecked := false, pushMod := false, stageImpl := false, exprHit := none, exprNI := false, grouping := false, groupInline := false, typeImpl := false, typeNone := false }
 def cls_13 : NameClass :=
-  { op := true, comment := false, expr := false, not_ := false, all := false, exists_ := false, neNin := false, each := false, needsDecimal := false, operatorMap := false, logical := false, logicalConst := false, topNI := false, fieldNI := false, updater := false, updateInline := false, pushMod := false, stageImpl := false, exprHit := some false, exprNI := false, grouping := false, groupInline := false, typeImpl := false, typeNone := false }
+  { op := true, comment := false, expr := false, not_ := false, all := false, exists_ := false, neNin := false, each := false, needsDecimal := false, operatorMap := false, logical := false, logicalConst := false, topNI := false, fieldNI := false, updater := false, updateInline := false, updateChecked := false, pushMod := false, stageImpl := false, exprHit := some false, exprNI := false, grouping := false, groupInline := false, typeImpl := false, typeNone := false }
 def cls_14 : NameClass :=
-  { op := true, comment := false, expr := false, not_ := false, all := false, exists_ := false, neNin := false, each := false, needsDecimal := false, operatorMap := false, logical := true, logicalConst := false, topNI := false, fieldNI := false, updater := false, updateInline := false, pushMod := false, stageImpl := false, exprHit := none, exprNI := false, grouping := false, groupInline := false, typeImpl := false, typeNone := false }
+  { op := true, comment := false, expr := false, not_ := false, all := false, exists_ := false, neNin := false, each := false, needsDecimal := false, operatorMap := false, logical := true, logicalConst := false, topNI := false, fieldNI := false, updater := false, updateInline := false, updateChecked := false, pushMod := false, stageImpl := false, exprHit := none, exprNI := false, grouping := false, groupInline := false, typeImpl := false, typeNone := false }
 def cls_15 : NameClass :=
-  { op := true, comment := false, expr := false, not_ := false, all := false, exists_ := false, neNin := false, each := false, needsDecimal := false, operatorMap := false, logical := false, logicalConst := false, topNI := false, fieldNI := false, updater := false, updateInline := false, pushMod := false, stageImpl := false, exprHit := some true, exprNI := true, grouping := false, groupInline := false, typeImpl := false, typeNone := false }
+  { op := true, comment := false, expr := false, not_ := false, all := false, exists_ := false, neNin := false, each := false, needsDecimal := false, operatorMap := false, logical := false, logicalConst := false, topNI := false, fieldNI := false, updater := false, updateInline := false, updateChecked := false, pushMod := false, stageImpl := false, exprHit := some true, exprNI := true, grouping := false, groupInline := false, typeImpl := false, typeNone := false }
 def cls_16 : NameClass :=
-  { op := true, comment := false, expr := false, not_ := false, all := false, exists_ := false, neNin := false, each := false, needsDecimal := false, operatorMap := false, logical := false, logicalConst := false, topNI := false, fieldNI := false, updater := true, updateInline := false, pushMod := false, stageImpl := true, exprHit := none, exprNI := false, grouping := false, groupInline := false, typeImpl := false, typeNone := false }
+  { op := true, comment := false, expr := false, not_ := false, all := false, exists_ := false, neNin := false, each := false, needsDecimal := false, operatorMap := false, logical := false, logicalConst := false, topNI := false, fieldNI := false, updater := true, updateInline := false, updateChecked := true, pushMod := false, stageImpl := true, exprHit := none, exprNI := false, grouping := false, groupInline := false, typeImpl := false, typeNone := false }
 def cls_17 : NameClass :=
-  { op := true, comment := false, expr := false, not_ := true, all := false, exists_ := false, neNin := false, each := false, needsDecimal := false, operatorMap := false, logical := true, logicalConst := true, topNI := false, fieldNI := false, updater := false, updateInline := false, pushMod := false, stageImpl := false, exprHit := some true, exprNI := false, grouping := false, groupInline := false, typeImpl := false, typeNone := false }
+  { op := true, comment := false, expr := false, not_ := true, all := false, exists_ := false, neNin := false, each := false, needsDecimal := false, operatorMap := false, logical := true, logicalConst := true, topNI := false, fieldNI := false, updater := false, updateInline := false, updateChecked := false, pushMod := false, stageImpl := false, exprHit := some true, exprNI := false, grouping := false, groupInline := false, typeImpl := false, typeNone := false }
 def cls_18 : NameClass :=
-  { op := true, comment := false, expr := false, not_ := false, all := false, exists_ := false, neNin := false, each := false, needsDecimal := false, operatorMap := false, logical := false, logicalConst := false, topNI := false, fieldNI := false, updater := false, updateInline := false, pushMod := false, stageImpl := true, exprHit := none, exprNI := false, grouping := false, groupInline := false, typeImpl := false, typeNone := false }
+  { op := true, comment := false, expr := false, not_ := false, all := false, exists_ := false, neNin := false, each := false, needsDecimal := false, operatorMap := false, logical := false, logicalConst := false, topNI := false, fieldNI := false, updater := false, updateInline := false, updateChecked := false, pushMod := false, stageImpl := true, exprHit := none, exprNI := false, grouping := false, groupInline := false, typeImpl := false, typeNone := false }
 def cls_19 : NameClass :=
-  { op := true, comment := false, expr := false, not_ := false, all := false, exists_ := false, neNin := false, each := false, needsDecimal := false, operatorMap := false, logical := false, logicalConst := false, topNI := false, fieldNI := false, updater := false, updateInline := false, pushMod := false, stageImpl := false, exprHit := none, exprNI := true, grouping := false, groupInline := false, typeImpl := false, typeNone := false }
+  { op := true, comment := false, expr := false, not_ := false, all := false, exists_ := false, neNin := false, each := false, needsDecimal := false, operatorMap := false, logical := false, logicalConst := false, topNI := false, fieldNI := false, updater := false, updateInline := false, updateChecked := false, pushMod := false, stageImpl := false, exprHit := none, exprNI := true, grouping := false, groupInline := false, typeImpl := false, typeNone := false }
 def cls_20 : NameClass :=
-  { op := true, comment := false, expr := false, not_ := false, all := false, exists_ := false, neNin := false, each := false, needsDecimal := false, operatorMap := true, logical := false, logicalConst := false, topNI := false, fieldNI := false, updater := false, updateInline := false, pushMod := false, stageImpl := false, exprHit := none, exprNI := false, grouping := false, groupInline := false, typeImpl := false, typeNone := false }
+  { op := true, comment := false, expr := false, not_ := false, all := false, exists_ := false, neNin := false, each := false, needsDecimal := false, operatorMap := true, logical := false, logicalConst := false, topNI := false, fieldNI := false, updater := false, updateInline := false, updateChecked := false, pushMod := false, stageImpl := false, exprHit := none, exprNI := false, grouping := false, groupInline := false, typeImpl := false, typeNone := false }
 def cls_21 : NameClass :=
-  { op := true, comment := false, expr := false, not_ := false, all := false, exists_ := false, neNin := false, each := true, needsDecimal := false, operatorMap := false, logical := false, logicalConst := false, topNI := false, fieldNI := false, updater := false, updateInline := false, pushMod := true, stageImpl := false, exprHit := none, exprNI := false, grouping := false, groupInline := false, typeImpl := false, typeNone := false }
+  { op := true, comment := false, expr := false, not_ := false, all := false, exists_ := false, neNin := false, each := true, needsDecimal := false, operatorMap := false, logical := false, logicalConst := false, topNI := false, fieldNI := false, updater := false, updateInline := false, updateChecked := false, pushMod := true, stageImpl := false, exprHit := none, exprNI := false, grouping := false, groupInline := false, typeImpl := false, typeNone := false }
 def cls_22 : NameClass :=
-  { op := true, comment := false, expr := false, not_ := false, all := false, exists_ := false, neNin := false, each := false, needsDecimal := false, operatorMap := false, logical := false, logicalConst := false, topNI := false, fieldNI := false, updater := false, updateInline := true, pushMod := false, stageImpl := false, exprHit := none, exprNI := false, grouping := false, groupInline := true, typeImpl := false, typeNone := false }
+  { op := true, comment := false, expr := false, not_ := false, all := false, exists_ := false, neNin := false, each := false, needsDecimal := false, operatorMap := false, logical := false, logicalConst := false, topNI := false, fieldNI := false, updater := false, updateInline := true, updateChecked := true, pushMod := false, stageImpl := false, exprHit := none, exprNI := false, grouping := false, groupInline := true, typeImpl := false, typeNone := false }
 def cls_23 : NameClass :=
-  { op := true, comment := false, expr := false, not_ := false, all := false, exists_ := false, neNin := false, each := false, needsDecimal := false, operatorMap := false, logical := false, logicalConst := false, topNI := false, fieldNI := false, updater := false, updateInline := true, pushMod := false, stageImpl := false, exprHit := none, exprNI := false, grouping := false, groupInline := false, typeImpl := false, typeNone := false }
+  { op := true, comment := false, expr := false, not_ := false, all := false, exists_ := false, neNin := false, each := false, needsDecimal := false, operatorMap := false, logical := false, logicalConst := false, topNI := false, fieldNI := false, updater := false, updateInline := true, updateChecked := true, pushMod := false, stageImpl := false, exprHit := none, exprNI := false, grouping := false, groupInline := false, typeImpl := false, typeNone := false }
 def cls_24 : NameClass :=
-  { op := true, comment := false, expr := false, not_ := false, all := false, exists_ := false, neNin := false, each := false, needsDecimal := false, operatorMap := false, logical := false, logicalConst := false, topNI := false, fieldNI := true, updater := false, updateInline := false, pushMod := false, stageImpl := false, exprHit := none, exprNI := false, grouping := false, groupInline := false, typeImpl := false, typeNone := false }
+  { op := true, comment := false, expr := false, not_ := false, all := false, exists_ := false, neNin := false, each := false, needsDecimal := false, operatorMap := false, logical := false, logicalConst := false, topNI := false, fieldNI := true, updater := false, updateInline := false, updateChecked := false, pushMod := false, stageImpl := false, exprHit := none, exprNI := false, grouping := false, groupInline := false, typeImpl := false, typeNone := false }
 def cls_25 : NameClass :=
-  { op := true, comment := false, expr := true, not_ := false, all := false, exists_ := false, neNin := false, each := false, needsDecimal := false, operatorMap := false, logical := false, logicalConst := false, topNI := true, fieldNI := false, updater := false, updateInline := false, pushMod := false, stageImpl := false, exprHit := none, exprNI := false, grouping := false, groupInline := false, typeImpl := false, typeNone := false }
+  { op := true, comment := false, expr := true, not_ := false, all := false, exists_ := false, neNin := false, each := false, needsDecimal := false, operatorMap := false, logical := false, logicalConst := false, topNI := true, fieldNI := false, updater := false, updateInline := false, updateChecked := false, pushMod := false, stageImpl := false, exprHit := none, exprNI := false, grouping := false, groupInline := false, typeImpl := false, typeNone := false }
 def cls_26 : NameClass :=
-  { op := true, comment := false, expr := false, not_ := false, all := false, exists_ := false, neNin := false, each := false, needsDecimal := false, operatorMap := false, logical := false, logicalConst := false, topNI := false, fieldNI := false, updater := false, updateInline := false, pushMod := true, stageImpl := true, exprHit := none, exprNI := false, grouping := false, groupInline := false, typeImpl := false, typeNone := false }
+  { op := true, comment := false, expr := false, not_ := false, all := false, exists_ := false, neNin := false, each := false, needsDecimal := false, operatorMap := false, logical := false, logicalConst := false, topNI := false, fieldNI := false, updater := false, updateInline := false, updateChecked := false, pushMod := true, stageImpl := true, exprHit := none, exprNI := false, grouping := false, groupInline := false, typeImpl := false, typeNone := false }
 def cls_27 : NameClass :=
-  { op := true, comment := false, expr := false, not_ := false, all := false, exists_ := false, neNin := false, each := false, needsDecimal := false, operatorMap := false, logical := false, logicalConst := false, topNI := true, fieldNI := false, updater := false, updateInline := false, pushMod := false, stageImpl := false, exprHit := none, exprNI := false, grouping := false, groupInline := false, typeImpl := false, typeNone := false }
+  { op := true, comment := false, expr := false, not_ := false, all := false, exists_ := false, neNin := false, each := false, needsDecimal := false, operatorMap := false, logical := false, logicalConst := false, topNI := true, fieldNI := false, updater := false, updateInline := false, updateChecked := false, pushMod := false, stageImpl := false, exprHit := none, exprNI := false, grouping := false, groupInline := false, typeImpl := false, typeNone := false }
 def cls_28 : NameClass :=
-  { op := true, comment := false, expr := false, not_ := false, all := false, exists_ := false, neNin := false, each := false, needsDecimal := false, operatorMap := false, logical := false, logicalConst := false, topNI := false, fieldNI := false, updater := false, updateInline := false, pushMod := true, stageImpl := false, exprHit := some true, exprNI := false, grouping := false, groupInline := false, typeImpl := false, typeNone := false }
+  { op := true, comment := false, expr := false, not_ := false, all := false, exists_ := false, neNin := false, each := false, needsDecimal := false, operatorMap := false, logical := false, logicalConst := false, topNI := false, fieldNI := false, updater := false, updateInline := false, updateChecked := false, pushMod := true, stageImpl := false, exprHit := some true, exprNI := false, grouping := false, groupInline := false, typeImpl := false, typeNone := false }
 def cls_29 : NameClass :=
-  { op := true, comment := false, expr := false, not_ := false, all := false, exists_ := false, neNin := false, each := false, needsDecimal := true, operatorMap := false, logical := false, logicalConst := false, topNI := false, fieldNI := false, updater := false, updateInline := false, pushMod := false, stageImpl := false, exprHit := some true, exprNI := false, grouping := false, groupInline := false, typeImpl := false, typeNone := false }
+  { op := true, comment := false, expr := false, not_ := false, all := false, exists_ := false, neNin := false, each := false, needsDecimal := true, operatorMap := false, logical := false, logicalConst := false, topNI := false, fieldNI := false, updater := false, updateInline := false, updateChecked := false, pushMod := false, stageImpl := false, exprHit := some true, exprNI := false, grouping := false, groupInline := false, typeImpl := false, typeNone := false }
 def cls_30 : NameClass :=
-  { op := true, comment := false, expr := false, not_ := false, all := false, exists_ := true, neNin := false, each := false, needsDecimal := false, operatorMap := true, logical := false, logicalConst := false, topNI := false, fieldNI := false, updater := false, updateInline := false, pushMod := false, stageImpl := false, exprHit := none, exprNI := false, grouping := false, groupInline := false, typeImpl := false, typeNone := false }
+  { op := true, comment := false, expr := false, not_ := false, all := false, exists_ := true, neNin := false, each := false, needsDecimal := false, operatorMap := true, logical := false, logicalConst := false, topNI := false, fieldNI := false, updater := false, updateInline := false, updateChecked := false, pushMod := false, stageImpl := false, exprHit := none, exprNI := false, grouping := false, groupInline := false, typeImpl := false, typeNone := false }
 def cls_31 : NameClass :=
-  { op := true, comment := true, expr := false, not_ := false, all := false, exists_ := false, neNin := false, each := false, needsDecimal := false, operatorMap := false, logical := false, logicalConst := false, topNI := false, fieldNI := false, updater := false, updateInline := false, pushMod := false, stageImpl := false, exprHit := none, exprNI := false, grouping := false, groupInline := false, typeImpl := false, typeNone := false }
+  { op := true, comment := true, expr := false, not_ := false, all := false, exists_ := false, neNin := false, each := false, needsDecimal := false, operatorMap := false, logical := false, logicalConst := false, topNI := false, fieldNI := false, updater := false, updateInline := false, updateChecked := false, pushMod := false, stageImpl := false, exprHit := none, exprNI := false, grouping := false, groupInline := false, typeImpl := false, typeNone := false }
 def cls_32 : NameClass :=
-  { op := true, comment := false, expr := false, not_ := false, all := false, exists_ := false, neNin := false, each := false, needsDecimal := false, operatorMap := false, logical := false, logicalConst := false, topNI := false, fieldNI := false, updater := false, updateInline := false, pushMod := true, stageImpl := false, exprHit := none, exprNI := false, grouping := false, groupInline := false, typeImpl := false, typeNone := false }
+  { op := true, comment := false, expr := false, not_ := false, all := false, exists_ := false, neNin := false, each := false, needsDecimal := false, operatorMap := false, logical := false, logicalConst := false, topNI := false, fieldNI := false, updater := false, updateInline := false, updateChecked := false, pushMod := true, stageImpl := false, exprHit := none, exprNI := false, grouping := false, groupInline := false, typeImpl := false, typeNone := false }
 def cls_33 : NameClass :=
-  { op := true, comment := false, expr := false, not_ := false, all := false, exists_ := false, neNin := false, each := false, needsDecimal := false, operatorMap := false, logical := false, logicalConst := false, topNI := false, fieldNI := false, updater := false, updateInline := false, pushMod := false, stageImpl := false, exprHit := none, exprNI := true, grouping := true, groupInline := false, typeImpl := false, typeNone := false }
+  { op := true, comment := false, expr := false, not_ := false, all := false, exists_ := false, neNin := false, each := false, needsDecimal := false, operatorMap := false, logical := false, logicalConst := false, topNI := false, fieldNI := false, updater := false, updateInline := false, updateChecked := false, pushMod := false, stageImpl := false, exprHit := none, exprNI := true, grouping := true, groupInline := false, typeImpl := false, typeNone := false }
 
 /-! distinct vectors of observed dispositions -/
 def dv_0 : List (Position × Disposition) :=
-  [(.queryField, .raisesOther), (.queryFieldDeadEnd, .ignored), (.queryTop, .raisesOther), (.queryNot, .raisesOther), (.queryElemMatch, .raisesOther), (.updateOp, .raisesOther), (.updateNoMatch, .ignored), (.pushModifier, .raisesOther), (.addToSetModifier, .ignored), (.stage, .raisesNotImplemented), (.exprProject, .raisesOther), (.exprAddFields, .raisesOther), (.exprMatchExpr, .raisesOther), (.exprGroupId, .raisesOther), (.accumulator, .raisesNotImplemented), (.typeAlias, .raisesOther)]
+  [(.queryField, .raisesOther), (.queryFieldDeadEnd, .raisesOther), (.queryTop, .raisesOther), (.queryNot, .raisesOther), (.queryElemMatch, .raisesOther), (.updateOp, .raisesOther), (.updateNoMatch, .raisesOther), (.pushModifier, .raisesOther), (.addToSetModifier, .raisesOther), (.stage, .raisesNotImplemented), (.exprProject, .raisesOther), (.exprAddFields, .raisesOther), (.exprMatchExpr, .raisesOther), (.exprGroupId, .raisesOther), (.accumulator, .raisesNotImplemented), (.typeAlias, .raisesOther)]
 def dv_1 : List (Position × Disposition) :=
   [(.typeAlias, .raisesOther)]
 def dv_2 : List (Position × Disposition) :=
-  [(.queryField, .implemented), (.queryFieldDeadEnd, .ignored), (.queryTop, .raisesOther), (.queryNot, .implemented), (.queryElemMatch, .implemented), (.updateOp, .raisesOther), (.updateNoMatch, .ignored), (.pushModifier, .raisesOther), (.addToSetModifier, .ignored), (.stage, .raisesNotImplemented), (.exprProject, .implemented), (.exprAddFields, .implemented), (.exprMatchExpr, .implemented), (.exprGroupId, .implemented), (.accumulator, .raisesNotImplemented), (.typeAlias, .raisesOther)]
+  [(.queryField, .implemented), (.queryFieldDeadEnd, .ignored), (.queryTop, .raisesOther), (.queryNot, .implemented), (.queryElemMatch, .implemented), (.updateOp, .raisesOther), (.updateNoMatch, .raisesOther), (.pushModifier, .raisesOther), (.addToSetModifier, .raisesOther), (.stage, .raisesNotImplemented), (.exprProject, .implemented), (.exprAddFields, .implemented), (.exprMatchExpr, .implemented), (.exprGroupId, .implemented), (.accumulator, .raisesNotImplemented), (.typeAlias, .raisesOther)]
 def dv_3 : List (Position × Disposition) :=
-  [(.queryField, .implemented), (.queryFieldDeadEnd, .implemented), (.queryTop, .raisesOther), (.queryNot, .implemented), (.queryElemMatch, .implemented), (.updateOp, .raisesOther), (.updateNoMatch, .ignored), (.pushModifier, .raisesOther), (.addToSetModifier, .ignored), (.stage, .raisesNotImplemented), (.exprProject, .implemented), (.exprAddFields, .implemented), (.exprMatchExpr, .implemented), (.exprGroupId, .implemented), (.accumulator, .raisesNotImplemented), (.typeAlias, .raisesOther)]
+  [(.queryField, .implemented), (.queryFieldDeadEnd, .implemented), (.queryTop, .raisesOther), (.queryNot, .implemented), (.queryElemMatch, .implemented), (.updateOp, .raisesOther), (.updateNoMatch, .raisesOther), (.pushModifier, .raisesOther), (.addToSetModifier, .raisesOther), (.stage, .raisesNotImplemented), (.exprProject, .implemented), (.exprAddFields, .implemented), (.exprMatchExpr, .implemented), (.exprGroupId, .implemented), (.accumulator, .raisesNotImplemented), (.typeAlias, .raisesOther)]
 def dv_4 : List (Position × Disposition) :=
-  [(.queryField, .raisesOther), (.queryFieldDeadEnd, .ignored), (.queryTop, .raisesOther), (.queryNot, .raisesOther), (.queryElemMatch, .raisesOther), (.updateOp, .raisesOther), (.updateNoMatch, .ignored), (.pushModifier, .raisesOther), (.addToSetModifier, .ignored), (.stage, .raisesNotImplemented), (.exprProject, .implemented), (.exprAddFields, .implemented), (.exprMatchExpr, .implemented), (.exprGroupId, .implemented), (.accumulator, .raisesNotImplemented), (.typeAlias, .raisesOther)]
+  [(.queryField, .raisesOther), (.queryFieldDeadEnd, .raisesOther), (.queryTop, .raisesOther), (.queryNot, .raisesOther), (.queryElemMatch, .raisesOther), (.updateOp, .raisesOther), (.updateNoMatch, .raisesOther), (.pushModifier, .raisesOther), (.addToSetModifier, .raisesOther), (.stage, .raisesNotImplemented), (.exprProject, .implemented), (.exprAddFields, .implemented), (.exprMatchExpr, .implemented), (.exprGroupId, .implemented), (.accumulator, .raisesNotImplemented), (.typeAlias, .raisesOther)]
 def dv_5 : List (Position × Disposition) :=
-  [(.queryField, .raisesOther), (.queryFieldDeadEnd, .ignored), (.queryTop, .implemented), (.queryNot, .raisesOther), (.queryElemMatch, .implemented), (.updateOp, .raisesOther), (.updateNoMatch, .ignored), (.pushModifier, .raisesOther), (.addToSetModifier, .ignored), (.stage, .raisesNotImplemented), (.exprProject, .implemented), (.exprAddFields, .implemented), (.exprMatchExpr, .implemented), (.exprGroupId, .implemented), (.accumulator, .raisesNotImplemented), (.typeAlias, .raisesOther)]
+  [(.queryField, .raisesOther), (.queryFieldDeadEnd, .raisesOther), (.queryTop, .implemented), (.queryNot, .raisesOther), (.queryElemMatch, .implemented), (.updateOp, .raisesOther), (.updateNoMatch, .raisesOther), (.pushModifier, .raisesOther), (.addToSetModifier, .raisesOther), (.stage, .raisesNotImplemented), (.exprProject, .implemented), (.exprAddFields, .implemented), (.exprMatchExpr, .implemented), (.exprGroupId, .implemented), (.accumulator, .raisesNotImplemented), (.typeAlias, .raisesOther)]
 def dv_6 : List (Position × Disposition) :=
   [(.typeAlias, .implemented)]
 def dv_7 : List (Position × Disposition) :=
-  [(.queryField, .raisesOther), (.queryFieldDeadEnd, .ignored), (.queryTop, .raisesOther), (.queryNot, .raisesOther), (.queryElemMatch, .raisesOther), (.updateOp, .implemented), (.updateNoMatch, .implemented), (.pushModifier, .raisesOther), (.addToSetModifier, .ignored), (.stage, .raisesNotImplemented), (.exprProject, .raisesOther), (.exprAddFields, .raisesOther), (.exprMatchExpr, .raisesOther), (.exprGroupId, .raisesOther), (.accumulator, .raisesNotImplemented), (.typeAlias, .raisesOther)]
+  [(.queryField, .raisesOther), (.queryFieldDeadEnd, .raisesOther), (.queryTop, .raisesOther), (.queryNot, .raisesOther), (.queryElemMatch, .raisesOther), (.updateOp, .implemented), (.updateNoMatch, .implemented), (.pushModifier, .raisesOther), (.addToSetModifier, .raisesOther), (.stage, .raisesNotImplemented), (.exprProject, .raisesOther), (.exprAddFields, .raisesOther), (.exprMatchExpr, .raisesOther), (.exprGroupId, .raisesOther), (.accumulator, .raisesNotImplemented), (.typeAlias, .raisesOther)]
 def dv_8 : List (Position × Disposition) :=
-  [(.queryField, .raisesOther), (.queryFieldDeadEnd, .ignored), (.queryTop, .raisesOther), (.queryNot, .raisesOther), (.queryElemMatch, .raisesOther), (.updateOp, .raisesOther), (.updateNoMatch, .ignored), (.pushModifier, .raisesOther), (.addToSetModifier, .ignored), (.stage, .raisesNotImplemented), (.exprProject, .implemented), (.exprAddFields, .implemented), (.exprMatchExpr, .implemented), (.exprGroupId, .implemented), (.accumulator, .implemented), (.typeAlias, .raisesOther)]
+  [(.queryField, .raisesOther), (.queryFieldDeadEnd, .raisesOther), (.queryTop, .raisesOther), (.queryNot, .raisesOther), (.queryElemMatch, .raisesOther), (.updateOp, .raisesOther), (.updateNoMatch, .raisesOther), (.pushModifier, .raisesOther), (.addToSetModifier, .raisesOther), (.stage, .raisesNotImplemented), (.exprProject, .implemented), (.exprAddFields, .implemented), (.exprMatchExpr, .implemented), (.exprGroupId, .implemented), (.accumulator, .implemented), (.typeAlias, .raisesOther)]
 def dv_9 : List (Position × Disposition) :=
-  [(.queryField, .implemented), (.queryFieldDeadEnd, .implemented), (.queryTop, .raisesOther), (.queryNot, .implemented), (.queryElemMatch, .implemented), (.updateOp, .raisesOther), (.updateNoMatch, .ignored), (.pushModifier, .raisesOther), (.addToSetModifier, .ignored), (.stage, .raisesNotImplemented), (.exprProject, .raisesOther), (.exprAddFields, .raisesOther), (.exprMatchExpr, .raisesOther), (.exprGroupId, .raisesOther), (.accumulator, .raisesNotImplemented), (.typeAlias, .raisesOther)]
+  [(.queryField, .implemented), (.queryFieldDeadEnd, .implemented), (.queryTop, .raisesOther), (.queryNot, .implemented), (.queryElemMatch, .implemented), (.updateOp, .raisesOther), (.updateNoMatch, .raisesOther), (.pushModifier, .raisesOther), (.addToSetModifier, .raisesOther), (.stage, .raisesNotImplemented), (.exprProject, .raisesOther), (.exprAddFields, .raisesOther), (.exprMatchExpr, .raisesOther), (.exprGroupId, .raisesOther), (.accumulator, .raisesNotImplemented), (.typeAlias, .raisesOther)]
 def dv_10 : List (Position × Disposition) :=
   [(.typeAlias, .raisesNotImplemented)]
 def dv_11 : List (Position × Disposition) :=
-  [(.queryField, .raisesOther), (.queryFieldDeadEnd, .ignored), (.queryTop, .raisesOther), (.queryNot, .raisesOther), (.queryElemMatch, .raisesOther), (.updateOp, .implemented), (.updateNoMatch, .implemented), (.pushModifier, .raisesOther), (.addToSetModifier, .ignored), (.stage, .raisesNotImplemented), (.exprProject, .implemented), (.exprAddFields, .implemented), (.exprMatchExpr, .implemented), (.exprGroupId, .implemented), (.accumulator, .implemented), (.typeAlias, .raisesOther)]
+  [(.queryField, .raisesOther), (.queryFieldDeadEnd, .raisesOther), (.queryTop, .raisesOther), (.queryNot, .raisesOther), (.queryElemMatch, .raisesOther), (.updateOp, .implemented), (.updateNoMatch, .implemented), (.pushModifier, .raisesOther), (.addToSetModifier, .raisesOther), (.stage, .raisesNotImplemented), (.exprProject, .implemented), (.exprAddFields, .implemented), (.exprMatchExpr, .implemented), (.exprGroupId, .implemented), (.accumulator, .implemented), (.typeAlias, .raisesOther)]
 def dv_12 : List (Position × Disposition) :=
-  [(.queryField, .implemented), (.queryFieldDeadEnd, .ignored), (.queryTop, .raisesOther), (.queryNot, .implemented), (.queryElemMatch, .implemented), (.updateOp, .raisesOther), (.updateNoMatch, .ignored), (.pushModifier, .raisesOther), (.addToSetModifier, .ignored), (.stage, .raisesNotImplemented), (.exprProject, .raisesOther), (.exprAddFields, .raisesOther), (.exprMatchExpr, .raisesOther), (.exprGroupId, .raisesOther), (.accumulator, .raisesNotImplemented), (.typeAlias, .raisesOther)]
+  [(.queryField, .implemented), (.queryFieldDeadEnd, .ignored), (.queryTop, .raisesOther), (.queryNot, .implemented), (.queryElemMatch, .implemented), (.updateOp, .raisesOther), (.updateNoMatch, .raisesOther), (.pushModifier, .raisesOther), (.addToSetModifier, .raisesOther), (.stage, .raisesNotImplemented), (.exprProject, .raisesOther), (.exprAddFields, .raisesOther), (.exprMatchExpr, .raisesOther), (.exprGroupId, .raisesOther), (.accumulator, .raisesNotImplemented), (.typeAlias, .raisesOther)]
 def dv_13 : List (Position × Disposition) :=
-  [(.queryField, .raisesOther), (.queryFieldDeadEnd, .ignored), (.queryTop, .raisesOther), (.queryNot, .raisesOther), (.queryElemMatch, .raisesOther), (.updateOp, .raisesOther), (.updateNoMatch, .ignored), (.pushModifier, .raisesOther), (.addToSetModifier, .ignored), (.stage, .raisesNotImplemented), (.exprProject, .raisesNotImplemented), (.exprAddFields, .raisesNotImplemented), (.exprMatchExpr, .raisesNotImplemented), (.exprGroupId, .raisesNotImplemented), (.accumulator, .raisesNotImplemented), (.typeAlias, .raisesOther)]
+  [(.queryField, .raisesOther), (.queryFieldDeadEnd, .raisesOther), (.queryTop, .raisesOther), (.queryNot, .raisesOther), (.queryElemMatch, .raisesOther), (.updateOp, .raisesOther), (.updateNoMatch, .raisesOther), (.pushModifier, .raisesOther), (.addToSetModifier, .raisesOther), (.stage, .raisesNotImplemented), (.exprProject, .raisesNotImplemented), (.exprAddFields, .raisesNotImplemented), (.exprMatchExpr, .raisesNotImplemented), (.exprGroupId, .raisesNotImplemented), (.accumulator, .raisesNotImplemented), (.typeAlias, .raisesOther)]
 def dv_14 : List (Position × Disposition) :=
-  [(.queryField, .raisesOther), (.queryFieldDeadEnd, .ignored), (.queryTop, .implemented), (.queryNot, .raisesOther), (.queryElemMatch, .implemented), (.updateOp, .raisesOther), (.updateNoMatch, .ignored), (.pushModifier, .raisesOther), (.addToSetModifier, .ignored), (.stage, .raisesNotImplemented), (.exprProject, .raisesOther), (.exprAddFields, .raisesOther), (.exprMatchExpr, .raisesOther), (.exprGroupId, .raisesOther), (.accumulator, .raisesNotImplemented), (.typeAlias, .raisesOther)]
+  [(.queryField, .raisesOther), (.queryFieldDeadEnd, .raisesOther), (.queryTop, .implemented), (.queryNot, .raisesOther), (.queryElemMatch, .implemented), (.updateOp, .raisesOther), (.updateNoMatch, .raisesOther), (.pushModifier, .raisesOther), (.addToSetModifier, .raisesOther), (.stage, .raisesNotImplemented), (.exprProject, .raisesOther), (.exprAddFields, .raisesOther), (.exprMatchExpr, .raisesOther), (.exprGroupId, .raisesOther), (.accumulator, .raisesNotImplemented), (.typeAlias, .raisesOther)]
 def dv_15 : List (Position × Disposition) :=
-  [(.queryField, .raisesOther), (.queryFieldDeadEnd, .ignored), (.queryTop, .raisesOther), (.queryNot, .raisesOther), (.queryElemMatch, .raisesOther), (.updateOp, .implemented), (.updateNoMatch, .implemented), (.pushModifier, .raisesOther), (.addToSetModifier, .ignored), (.stage, .implemented), (.exprProject, .raisesOther), (.exprAddFields, .raisesOther), (.exprMatchExpr, .raisesOther), (.exprGroupId, .raisesOther), (.accumulator, .raisesNotImplemented), (.typeAlias, .raisesOther)]
+  [(.queryField, .raisesOther), (.queryFieldDeadEnd, .raisesOther), (.queryTop, .raisesOther), (.queryNot, .raisesOther), (.queryElemMatch, .raisesOther), (.updateOp, .implemented), (.updateNoMatch, .implemented), (.pushModifier, .raisesOther), (.addToSetModifier, .raisesOther), (.stage, .implemented), (.exprProject, .raisesOther), (.exprAddFields, .raisesOther), (.exprMatchExpr, .raisesOther), (.exprGroupId, .raisesOther), (.accumulator, .raisesNotImplemented), (.typeAlias, .raisesOther)]
 def dv_16 : List (Position × Disposition) :=
-  [(.queryField, .raisesOther), (.queryFieldDeadEnd, .ignored), (.queryTop, .raisesOther), (.queryNot, .raisesOther), (.queryElemMatch, .raisesOther), (.updateOp, .raisesOther), (.updateNoMatch, .ignored), (.pushModifier, .raisesOther), (.addToSetModifier, .ignored), (.stage, .implemented), (.exprProject, .raisesOther), (.exprAddFields, .raisesOther), (.exprMatchExpr, .raisesOther), (.exprGroupId, .raisesOther), (.accumulator, .raisesNotImplemented), (.typeAlias, .raisesOther)]
+  [(.queryField, .raisesOther), (.queryFieldDeadEnd, .raisesOther), (.queryTop, .raisesOther), (.queryNot, .raisesOther), (.queryElemMatch, .raisesOther), (.updateOp, .raisesOther), (.updateNoMatch, .raisesOther), (.pushModifier, .raisesOther), (.addToSetModifier, .raisesOther), (.stage, .implemented), (.exprProject, .raisesOther), (.exprAddFields, .raisesOther), (.exprMatchExpr, .raisesOther), (.exprGroupId, .raisesOther), (.accumulator, .raisesNotImplemented), (.typeAlias, .raisesOther)]
 def dv_17 : List (Position × Disposition) :=
-  [(.queryField, .raisesOther), (.queryFieldDeadEnd, .ignored), (.queryTop, .raisesOther), (.queryNot, .raisesOther), (.queryElemMatch, .raisesOther), (.updateOp, .raisesOther), (.updateNoMatch, .ignored), (.pushModifier, .implemented), (.addToSetModifier, .implemented), (.stage, .raisesNotImplemented), (.exprProject, .raisesOther), (.exprAddFields, .raisesOther), (.exprMatchExpr, .raisesOther), (.exprGroupId, .raisesOther), (.accumulator, .raisesNotImplemented), (.typeAlias, .raisesOther)]
+  [(.queryField, .raisesOther), (.queryFieldDeadEnd, .raisesOther), (.queryTop, .raisesOther), (.queryNot, .raisesOther), (.queryElemMatch, .raisesOther), (.updateOp, .raisesOther), (.updateNoMatch, .raisesOther), (.pushModifier, .implemented), (.addToSetModifier, .implemented), (.stage, .raisesNotImplemented), (.exprProject, .raisesOther), (.exprAddFields, .raisesOther), (.exprMatchExpr, .raisesOther), (.exprGroupId, .raisesOther), (.accumulator, .raisesNotImplemented), (.typeAlias, .raisesOther)]
 def dv_18 : List (Position × Disposition) :=
-  [(.queryField, .raisesOther), (.queryFieldDeadEnd, .ignored), (.queryTop, .raisesOther), (.queryNot, .raisesOther), (.queryElemMatch, .raisesOther), (.updateOp, .implemented), (.updateNoMatch, .implemented), (.pushModifier, .raisesOther), (.addToSetModifier, .ignored), (.stage, .raisesNotImplemented), (.exprProject, .raisesOther), (.exprAddFields, .raisesOther), (.exprMatchExpr, .raisesOther), (.exprGroupId, .raisesOther), (.accumulator, .implemented), (.typeAlias, .raisesOther)]
+  [(.queryField, .raisesOther), (.queryFieldDeadEnd, .raisesOther), (.queryTop, .raisesOther), (.queryNot, .raisesOther), (.queryElemMatch, .raisesOther), (.updateOp, .implemented), (.updateNoMatch, .implemented), (.pushModifier, .raisesOther), (.addToSetModifier, .raisesOther), (.stage, .raisesNotImplemented), (.exprProject, .raisesOther), (.exprAddFields, .raisesOther), (.exprMatchExpr, .raisesOther), (.exprGroupId, .raisesOther), (.accumulator, .implemented), (.typeAlias, .raisesOther)]
 def dv_19 : List (Position × Disposition) :=
-  [(.queryField, .raisesNotImplemented), (.queryFieldDeadEnd, .ignored), (.queryTop, .raisesOther), (.queryNot, .raisesOther), (.queryElemMatch, .raisesNotImplemented), (.updateOp, .raisesOther), (.updateNoMatch, .ignored), (.pushModifier, .raisesOther), (.addToSetModifier, .ignored), (.stage, .raisesNotImplemented), (.exprProject, .raisesOther), (.exprAddFields, .raisesOther), (.exprMatchExpr, .raisesOther), (.exprGroupId, .raisesOther), (.accumulator, .raisesNotImplemented), (.typeAlias, .raisesOther)]
+  [(.queryField, .raisesNotImplemented), (.queryFieldDeadEnd, .raisesNotImplemented), (.queryTop, .raisesOther), (.queryNot, .raisesOther), (.queryElemMatch, .raisesNotImplemented), (.updateOp, .raisesOther), (.updateNoMatch, .raisesOther), (.pushModifier, .raisesOther), (.addToSetModifier, .raisesOther), (.stage, .raisesNotImplemented), (.exprProject, .raisesOther), (.exprAddFields, .raisesOther), (.exprMatchExpr, .raisesOther), (.exprGroupId, .raisesOther), (.accumulator, .raisesNotImplemented), (.typeAlias, .raisesOther)]
 def dv_20 : List (Position × Disposition) :=
-  [(.queryField, .raisesOther), (.queryFieldDeadEnd, .ignored), (.queryTop, .raisesOther), (.queryNot, .raisesOther), (.queryElemMatch, .raisesOther), (.updateOp, .raisesOther), (.updateNoMatch, .ignored), (.pushModifier, .implemented), (.addToSetModifier, .ignored), (.stage, .implemented), (.exprProject, .raisesOther), (.exprAddFields, .raisesOther), (.exprMatchExpr, .raisesOther), (.exprGroupId, .raisesOther), (.accumulator, .raisesNotImplemented), (.typeAlias, .raisesOther)]
+  [(.queryField, .raisesOther), (.queryFieldDeadEnd, .raisesOther), (.queryTop, .raisesOther), (.queryNot, .raisesOther), (.queryElemMatch, .raisesOther), (.updateOp, .raisesOther), (.updateNoMatch, .raisesOther), (.pushModifier, .implemented), (.addToSetModifier, .raisesOther), (.stage, .implemented), (.exprProject, .raisesOther), (.exprAddFields, .raisesOther), (.exprMatchExpr, .raisesOther), (.exprGroupId, .raisesOther), (.accumulator, .raisesNotImplemented), (.typeAlias, .raisesOther)]
 def dv_21 : List (Position × Disposition) :=
-  [(.queryField, .raisesOther), (.queryFieldDeadEnd, .ignored), (.queryTop, .raisesNotImplemented), (.queryNot, .raisesOther), (.queryElemMatch, .raisesNotImplemented), (.updateOp, .raisesOther), (.updateNoMatch, .ignored), (.pushModifier, .raisesOther), (.addToSetModifier, .ignored), (.stage, .raisesNotImplemented), (.exprProject, .raisesOther), (.exprAddFields, .raisesOther), (.exprMatchExpr, .raisesOther), (.exprGroupId, .raisesOther), (.accumulator, .raisesNotImplemented), (.typeAlias, .raisesOther)]
+  [(.queryField, .raisesOther), (.queryFieldDeadEnd, .raisesOther), (.queryTop, .raisesNotImplemented), (.queryNot, .raisesOther), (.queryElemMatch, .raisesNotImplemented), (.updateOp, .raisesOther), (.updateNoMatch, .raisesOther), (.pushModifier, .raisesOther), (.addToSetModifier, .raisesOther), (.stage, .raisesNotImplemented), (.exprProject, .raisesOther), (.exprAddFields, .raisesOther), (.exprMatchExpr, .raisesOther), (.exprGroupId, .raisesOther), (.accumulator, .raisesNotImplemented), (.typeAlias, .raisesOther)]
 def dv_22 : List (Position × Disposition) :=
-  [(.queryField, .raisesOther), (.queryFieldDeadEnd, .ignored), (.queryTop, .raisesOther), (.queryNot, .raisesOther), (.queryElemMatch, .raisesOther), (.updateOp, .raisesOther), (.updateNoMatch, .ignored), (.pushModifier, .implemented), (.addToSetModifier, .ignored), (.stage, .raisesNotImplemented), (.exprProject, .implemented), (.exprAddFields, .implemented), (.exprMatchExpr, .implemented), (.exprGroupId, .implemented), (.accumulator, .raisesNotImplemented), (.typeAlias, .raisesOther)]
+  [(.queryField, .raisesOther), (.queryFieldDeadEnd, .raisesOther), (.queryTop, .raisesOther), (.queryNot, .raisesOther), (.queryElemMatch, .raisesOther), (.updateOp, .raisesOther), (.updateNoMatch, .raisesOther), (.pushModifier, .implemented), (.addToSetModifier, .raisesOther), (.stage, .raisesNotImplemented), (.exprProject, .implemented), (.exprAddFields, .implemented), (.exprMatchExpr, .implemented), (.exprGroupId, .implemented), (.accumulator, .raisesNotImplemented), (.typeAlias, .raisesOther)]
 def dv_23 : List (Position × Disposition) :=
-  [(.queryField, .raisesOther), (.queryFieldDeadEnd, .ignored), (.queryTop, .raisesOther), (.queryNot, .raisesOther), (.queryElemMatch, .raisesOther), (.updateOp, .raisesOther), (.updateNoMatch, .ignored), (.pushModifier, .implemented), (.addToSetModifier, .ignored), (.stage, .raisesNotImplemented), (.exprProject, .raisesOther), (.exprAddFields, .raisesOther), (.exprMatchExpr, .raisesOther), (.exprGroupId, .raisesOther), (.accumulator, .raisesNotImplemented), (.typeAlias, .raisesOther)]
+  [(.queryField, .raisesOther), (.queryFieldDeadEnd, .raisesOther), (.queryTop, .raisesOther), (.queryNot, .raisesOther), (.queryElemMatch, .raisesOther), (.updateOp, .raisesOther), (.updateNoMatch, .raisesOther), (.pushModifier, .implemented), (.addToSetModifier, .raisesOther), (.stage, .raisesNotImplemented), (.exprProject, .raisesOther), (.exprAddFields, .raisesOther), (.exprMatchExpr, .raisesOther), (.exprGroupId, .raisesOther), (.accumulator, .raisesNotImplemented), (.typeAlias, .raisesOther)]
 def dv_24 : List (Position × Disposition) :=
-  [(.queryField, .raisesOther), (.queryFieldDeadEnd, .ignored), (.queryTop, .raisesOther), (.queryNot, .raisesOther), (.queryElemMatch, .raisesOther), (.updateOp, .raisesOther), (.updateNoMatch, .ignored), (.pushModifier, .raisesOther), (.addToSetModifier, .ignored), (.stage, .raisesNotImplemented), (.exprProject, .raisesNotImplemented), (.exprAddFields, .raisesNotImplemented), (.exprMatchExpr, .raisesNotImplemented), (.exprGroupId, .raisesNotImplemented), (.accumulator, .implemented), (.typeAlias, .raisesOther)]
+  [(.queryField, .raisesOther), (.queryFieldDeadEnd, .raisesOther), (.queryTop, .raisesOther), (.queryNot, .raisesOther), (.queryElemMatch, .raisesOther), (.updateOp, .raisesOther), (.updateNoMatch, .raisesOther), (.pushModifier, .raisesOther), (.addToSetModifier, .raisesOther), (.stage, .raisesNotImplemented), (.exprProject, .raisesNotImplemented), (.exprAddFields, .raisesNotImplemented), (.exprMatchExpr, .raisesNotImplemented), (.exprGroupId, .raisesNotImplemented), (.accumulator, .implemented), (.typeAlias, .raisesOther)]
 
 def rows_0 : List Row := [
   ⟨"$", 36, cls_0, dv_0⟩,
@@ -464,10 +464,7 @@ def rows : List Row := rowChunks.flatten
 /-- the probed table: one entry per (position, name), 4352 entries -/
 def vocab : List Entry := entriesOf rows
 
-/-- known findings (known_findings.json): positions at which every unknown name is accepted silently -/
-def knownIgnoredPositions : List Position := [.queryFieldDeadEnd, .updateNoMatch, .addToSetModifier]
-
-/-- known findings (known_findings.json): single (position, name) pairs:  -/
-def knownIgnoredPairs : List (Position × Code) := []
+/-- known findings (known_findings.json): single (position, name) pairs: queryFieldDeadEnd $ne, queryFieldDeadEnd $nin -/
+def knownIgnoredPairs : List (Position × Code) := [(.queryFieldDeadEnd, 6647332), (.queryFieldDeadEnd, 1852403236)]
 
 end Generated
